@@ -7,6 +7,7 @@ import genck
 import implck
 import genre
 from props import C10 as _C10
+import directed
 
 DESCRIPTION = ("Lean: Props/C11.lean (in-progress set after = before for every oracle; the surfaced exception is the injected "
                "one or the documented wrapper chaining it). Harness: for every site the fault-free trace of a scenario passes, "
@@ -21,6 +22,8 @@ ASSUMPTIONS = ["a coroutine abandoned while suspended and never finalised is not
                "reprlib absorbs Exception raised by a value's __repr__ (A-reprlib; exercised, not modelled)"]
 
 AW = {"T": 7, "F": 3}
+NEIGHBOURS = [{"from": "C09", "limit": 400, "why": "every kind of error object surfaces"},
+              {"from": "C13", "limit": 400, "why": "exceptions of awaited conditions surface"}]
 
 
 def _sites(trace):
@@ -171,8 +174,13 @@ def run_attr_fault(case):
     return {"steps": out}
 
 
+run_directed = directed.run
+
+
 def cases(tier, rng):
     thorough = tier == "thorough"
+    for c in directed.cancelled_in_body_cases():
+        yield "directed-cancelled-in-body", c
     for a in (False, True):
         for exc in ("Exception", "BaseException"):
             for nf in (1, 2, 3):
